@@ -81,6 +81,10 @@ class PyrConfig(object):
 
     def reachable_leaves(self):
         d = self.depth
+        if self.kind == "generic" and self.apex is not None:
+            # all descendants of the apex at the leaf level, enumerated directly (the pyramid may be deep)
+            a, s = self.apex, d - self.apex.n
+            return [Pos(d, (a.x << s) + i, (a.y << s) + j) for i in range(2 ** s) for j in range(2 ** s)]
         if self.accept is not None:
             apex = self.apex if self.apex is not None else Pos(0, 0, 0)
             return [p for p in self.accept if p.n == d and is_desc_or_self(p, apex)
@@ -117,6 +121,10 @@ def draw_deep_pyramid(ch):
     """A deep (depth 10-12) TOAST pyramid whose filter accepts only the paths to 1-3 leaves (plus a few stray
     siblings without children): few tiles, but the code paths toasty takes for depth > 9."""
     depth = 10 + ch.draw(3, kind="deep_depth")
+    if ch.draw(3, kind="deep_generic") == 2:
+        # a generic (unfiltered) deep pyramid restricted to a small sub-pyramid
+        n = depth - ch.draw(4, kind="apex_up")
+        return PyrConfig("generic", depth, Pos(n, ch.draw(2 ** n, kind="apex_x"), ch.draw(2 ** n, kind="apex_y")), set())
     accept = set()
     first = None
     for _ in range(1 + ch.draw(3, kind="deep_nleaves")):
